@@ -201,6 +201,8 @@ pub fn abstract_case(case: &cut::Case, trace: &str, full_pw: &[String], delivere
             "P2" => (Some("S0".into()), Some("send#3")),
             "t0" | "t1" => (Some("T".into()), None),
             "t1m" => (None, None),
+            // a non-terminal `received` disposition: changes no call's result
+            "R1" => (None, None),
             // the peer echoes the closed flag of the client's detach: detach() is not closing unless it comes after a re-attach
             "Ds" => (Some(format!("Ds{}0", b(s_att > 1))), Some("detach_s")),
             "Dr" => (Some("Dr10".into()), Some("close_r")),
